@@ -352,10 +352,81 @@ func runC11(r *run) {
 			}
 		}
 	}
+	c11SkipChildren(r)
 	// JSON loggers under go test with error values: the records keep the JSON shape (the twin binary, oracle only)
 	if exe := os.Getenv("VERIF_HARNESS"); exe != "" {
 		if err := r.mergeChild(exec.Command(exe+".test", "-test.v", "c11test", fmt.Sprint(r.seed), r.tier)); err != nil {
 			r.violate(violation{What: "the go-test-mode twin of the harness failed: " + err.Error()})
 		}
 	}
+}
+
+// c11SkipChildren: a child made with WithSkip(n) is a logger like any other: its format is decided by its own most recent
+// mode call, whoever asks the parent for WithSkip(n) again (a helper that logs through parent.WithSkip(1) on every call),
+// and whatever mode calls the parent gets afterwards. Oracle only.
+func c11SkipChildren(r *run) {
+	probe := func(l slog.Logger, rc *recorder) (bool, bool, string) {
+		rc.take()
+		l.Info("probe\nsecond line\n", "k", 1)
+		w := rc.take()
+		shape := "none"
+		if len(w) == 1 {
+			shape = classify(w[0])
+		}
+		return l.JSONMode(), l.ColorMode(), shape
+	}
+	n := 0
+	for _, pm := range []int{-1, 0, 2, 7} { // the parent's own format: untouched, j, j0, c0
+		for _, m1 := range c11Alphabet {
+			for _, pm2 := range []int{-1, 1, 6, 7} { // the parent's later mode call: none, j1, c1, c0
+				n++
+				prc, crc := &recorder{}, &recorder{}
+				p := slog.New(fmt.Sprintf("skp%d", n)).SetLevel(slog.InfoLevel).SetWriter(prc).SetErrorWriter(prc)
+				pspec := 1
+				toks := []string{}
+				if pm >= 0 {
+					if c11Alphabet[pm].json {
+						p.SetJSONMode(c11Alphabet[pm].bits...)
+					} else {
+						p.SetColorMode(c11Alphabet[pm].bits...)
+					}
+					pspec = specFmt(pspec, c11Alphabet[pm])
+					toks = append(toks, "parent:"+c11Alphabet[pm].tok)
+				}
+				skip := 1 + n%2
+				c := p.WithSkip(skip)
+				c.SetWriter(crc).SetErrorWriter(crc)
+				if m1.json {
+					c.SetJSONMode(m1.bits...)
+				} else {
+					c.SetColorMode(m1.bits...)
+				}
+				cspec := specFmt(pspec, m1)
+				toks = append(toks, fmt.Sprintf("c := parent.WithSkip(%d)", skip), "c:"+m1.tok, fmt.Sprintf("parent.WithSkip(%d).Info(…)", skip))
+				p.WithSkip(skip).Info("from a helper")
+				if pm2 >= 0 {
+					if c11Alphabet[pm2].json {
+						p.SetJSONMode(c11Alphabet[pm2].bits...)
+					} else {
+						p.SetColorMode(c11Alphabet[pm2].bits...)
+					}
+					pspec = specFmt(pspec, c11Alphabet[pm2])
+					toks = append(toks, "parent:"+c11Alphabet[pm2].tok, fmt.Sprintf("parent.WithSkip(%d).Info(…)", skip))
+					p.WithSkip(skip).Info("from a helper again")
+				}
+				r.seen(fmt.Sprintf("skip-child|%d|%s|%d", pm, m1.tok, pm2))
+				if j, cm, shape := probe(c, crc); shape != fmtNames[cspec] || j != (cspec == 0) || cm != (cspec == 1) {
+					r.violate(violation{What: "the format of a WithSkip child differs from the three-state machine after the parent was asked for WithSkip again",
+						Input: map[string]any{"calls": toks, "probed": "c"}, Expected: map[string]any{"format": fmtNames[cspec]},
+						Actual: map[string]any{"JSONMode": j, "ColorMode": cm, "record_shape": shape}})
+				}
+				if j, cm, shape := probe(p, prc); shape != fmtNames[pspec] || j != (pspec == 0) || cm != (pspec == 1) {
+					r.violate(violation{What: "the format of a logger differs from the three-state machine after mode calls on its WithSkip child",
+						Input: map[string]any{"calls": toks, "probed": "parent"}, Expected: map[string]any{"format": fmtNames[pspec]},
+						Actual: map[string]any{"JSONMode": j, "ColorMode": cm, "record_shape": shape}})
+				}
+			}
+		}
+	}
+	slog.VerifResetGlobals()
 }
